@@ -90,6 +90,7 @@ type failReader struct {
 	partial bool
 	fired   int
 	seek    bool
+	onFail  func() // called at the moment of the failure (e.g. the context given to NewDemuxer ends with the reader)
 }
 
 // the failure a reader reports comes in several kinds: a plain error, one that says it is a timeout (a network read deadline), one that
@@ -102,6 +103,9 @@ func (e *kindErr) Temporary() bool { return e.temporary }
 func (e *kindErr) Unwrap() error   { return errInjected }
 
 func (f *failReader) failure() error {
+	if f.onFail != nil {
+		f.onFail()
+	}
 	switch f.failAt % 3 {
 	case 1:
 		return &kindErr{timeout: true}
@@ -1455,6 +1459,31 @@ func runRewindOn(sc *streamScenario, sid string, bs *builtStream, rec *recorder)
 			})
 		}
 	}
+	// (6) the reader is handed to NewDemuxer positioned behind its first packet (the caller looked at it): Rewind goes back to offset 0 and
+	// the whole stream is delivered as by a fresh Demuxer
+	if len(bs.pkts) >= 3 {
+		rec.ev(M{"ev": "variant", "r": -2, "k": -1, "api": "data", "again": -1})
+		drainData(newDemuxer(bytes.NewReader(bs.bytes), sc.Run), bound, func() int { return 0 }, func(e M) {
+			e["run"] = -2
+			rec.ev(e)
+		})
+		rd := bytes.NewReader(bs.bytes)
+		rd.Seek(188, io.SeekStart)
+		dmx := newDemuxer(rd, sc.Run)
+		k := 1 + rg.intn(maxK+1)
+		for c := 0; c < k; c++ {
+			safeCall(func() { dmx.NextData() })
+		}
+		rec.ev(M{"ev": "variant", "r": 4000, "k": k, "api": "reader-handed-over-behind-the-first-packet", "again": -1})
+		var n int64
+		var err error
+		pn := safeCall(func() { n, err = dmx.Rewind() })
+		rec.ev(M{"ev": "rewind", "run": 4000, "n": int(n), "err": errClass(err), "panic": pn != nil})
+		drainData(dmx, bound, func() int { return 0 }, func(e M) {
+			e["run"] = 4000
+			rec.ev(e)
+		})
+	}
 	// (4) a unit of two sections whose second one is damaged (the first is delivered, the unit's error comes with a later call), Rewind in
 	// between: the error belongs to the pass before the Rewind
 	{
@@ -1826,6 +1855,14 @@ func runRFault(sc *streamScenario, rec *recorder, level int) {
 						}
 						rec.ev(M{"ev": "rstart", "off": off, "partial": partial, "seek": seek, "rkind": rkind})
 						dmx := newDemuxer(r, run)
+						if off%4 == 1 {
+							// the context given to NewDemuxer ends at the very moment the reader fails (a reader bound to it): the reader's
+							// error is still what the pending call reports
+							cctx, cancel := context.WithCancel(context.Background())
+							defer cancel()
+							fr.onFail = cancel
+							dmx = newDemuxerCtx(cctx, r, run)
+						}
 						for k := 0; k < bound; k++ {
 							before := fr.fired
 							var dg string
